@@ -46,7 +46,7 @@ def gen_pvalue(rng, depth, plain=True):
     if depth <= 0 or r < .45:
         if not plain and rng.random() < .3:
             k = rng.randrange(5)
-            if k == 0: return ["e", hexs(b"error"), hexs(rng.choice(STRS))]
+            if k == 0: i = rng.randrange(1, 4); return ["e", str(i), hexs(b"error"), hexs(STRS[i])]
             if k == 1: return ["fn", hexs(b"f%d" % rng.randrange(3))]
             if k == 2: return ["o", hexs(b"time"), hexs(str(rng.randrange(-10**18, 10**18)).encode())]
             if k == 3: return ["o", hexs(b"rawMessage"), hexs(rng.choice(STRS))]
@@ -134,6 +134,19 @@ def canon_go(g):
         return ["map"] + [[kv[0], canon_go(kv[1])] for kv in g[1:]]
     return g
 
+def count_failing(x):
+    if isinstance(x, str): return 0
+    n = 1 if (x and x[0] in ("other", "i8", "i16", "u16", "u32", "reg")) else 0
+    return n + sum(count_failing(y) for y in x[1:])
+
+CONV_PREFIX = "(err x6572726f72 x" + b"cannot convert to object: ".hex()
+
+def canon(c, out):
+    """Go map iteration order decides which of several unsupported elements is reported."""
+    if out.startswith(CONV_PREFIX) and count_failing(c["args"][0]) > 1:
+        return CONV_PREFIX + "...)"
+    return out
+
 INT_HEADS = {"i64", "int", "uint", "u64", "uptr", "i32", "u8", "i8", "i16", "u16", "u32", "dur"}
 
 def run(rep, br, proofs, rng, tier):
@@ -167,7 +180,7 @@ def run(rep, br, proofs, rng, tier):
         if key in seen: continue
         seen.add(key); uniq.append(c)
     cases = uniq
-    impl, model, dis = vlib.correspond(cases)
+    impl, model, dis = vlib.correspond(cases, canon=canon)
     # property oracle, evaluated on the implementation's own answers
     oracle_fail = []
     kinds = {}
